@@ -56,6 +56,19 @@ def set_clock(tick):
     os.environ['GIT_COMMITTER_DATE'] = d
 
 
+def call_site():
+    """Name of the Bert-E workflow/job function that issued the current git
+    command (nearest frame in workflow/gitwaterflow or jobs)."""
+    f = sys._getframe(2)
+    while f is not None:
+        fn = f.f_code.co_filename
+        if ('/workflow/gitwaterflow/' in fn or '/bert_e/jobs/' in fn) and \
+                f.f_code.co_name not in ('push',):
+            return f.f_code.co_name
+        f = f.f_back
+    return '?'
+
+
 class Crash(BaseException):
     """Crash-stop of Bert-E: not catchable by `except Exception`."""
 
@@ -231,6 +244,8 @@ class World:
                 return self._real_cmd(command, **kwargs)
             idx = len(log)
             rec = {'i': idx, 'cmd': command}
+            if command.startswith('git push'):
+                rec['site'] = call_site()
             log.append(rec)
             if self.cmd_hook is not None:
                 repl = self.cmd_hook(idx, command, kwargs, rec)
